@@ -221,20 +221,32 @@ def h_measures(ctx, kind, ypat):
     y = pd.Series(list(ypat))
     vals = [ctx.choose(f"x{i}", 3) for i in range(n)]
     if kind in ("cramerv", "tschuprowt"):
-        x = pd.Series([str(v) for v in vals], name="f")
-        if x.nunique() < 2:
+        # missing values in either argument (the inter-feature filters call measure(feature, better_feature)): pairwise-complete rows
+        xs_ = [str(v) for v in vals]
+        ys_ = [str(c) for c in ypat]
+        nx, ny = ctx.choose("nan_x", n + 1), ctx.choose("nan_y", n + 1)
+        if nx < n:
+            xs_[nx] = np.nan
+        if ny < n:
+            ys_[ny] = np.nan
+        x = pd.Series(xs_, name="f", dtype=object)
+        y = pd.Series(ys_, dtype=object)
+        keep = x.notna() & y.notna()
+        xc, yc = x[keep], y[keep]
+        if xc.nunique() < 2 or yc.nunique() < 2:
             from symx import Infeasible
             raise Infeasible()
-        tab = pd.crosstab(x, y)
+        n = int(keep.sum())
+        tab = pd.crosstab(xc, yc)
         chi2 = chi2_contingency(tab)[0]
-        kx, ky = x.nunique(), y.nunique()
+        kx, ky = xc.nunique(), yc.nunique()
         if kind == "cramerv":
             exp = math.sqrt(chi2 / n / (min(kx, ky) - 1))
             got = M.cramerv_measure(x, y)[1]["cramerv_measure"]
         else:
             exp = math.sqrt(chi2 / n / math.sqrt((kx - 1) * (ky - 1)))
             got = M.tschuprowt_measure(x, y)[1]["tschuprowt_measure"]
-        ctx.require(abs(got - exp) <= 1e-12, f"C14.measure-differs", f"{kind}_measure={got!r}, independent recomputation={exp!r} (x={vals}, y={list(ypat)})", dict(measure=kind))
+        ctx.require(abs(got - exp) <= 1e-12, f"C14.measure-differs", f"{kind}_measure={got!r}, independent recomputation on pairwise-complete rows={exp!r} (x={xs_}, y={ys_})", dict(measure=kind))
         res = got
     elif kind == "kruskal":
         nan_pos = ctx.choose("nan_pos", n + 1)
@@ -285,7 +297,7 @@ def obligation_measures(tier):
     return Obligation(
         name="O14.4 Cramer's V, Tschuprow's T, Kruskal-Wallis H (missing rows removed) and the Spearman/Pearson filter values equal an independent recomputation with scipy on solver-chosen small samples",
         harness=h_measures, jobs=jobs, encodes=["qualitative_measures.chi2_measure/cramerv_measure/tschuprowt_measure", "quantitative_measures.kruskal_measure", "quantitative_filters.spearman_filter/pearson_filter"],
-        bounds="5-6 rows, feature values solver-chosen in {0,1,2} per row, one optional missing row, binary and 3-class targets", outside="scipy's own correctness (trusted)", twin=False, budget_s=5.0,
+        bounds="5-6 rows, feature values solver-chosen in {0,1,2} per row, one optional missing row in each argument, binary and 3-class targets", outside="scipy's own correctness (trusted)", twin=False, budget_s=5.0,
     )
 
 
